@@ -982,6 +982,17 @@ pub fn oracle_sampled(c: &Case, n_tapes: usize, max_nodes: usize) -> Outcome {
         };
         let fa = join(&va, &own_a);
         let fb = join(&vb, &own_b);
+        // bytes that never vary over all samples of both assignments (opaque key constants, the
+        // zero upper bytes of small integers ...) carry no information: project them away so that
+        // larger views fit the sample budget
+        let keep: Vec<usize> = if fa.iter().chain(fb.iter()).all(|x| x.len() == fa[0].len()) {
+            (0..fa[0].len()).filter(|i| fa.iter().chain(fb.iter()).any(|x| x[*i] != fa[0][*i])).collect()
+        } else {
+            (0..fa[0].len()).collect()
+        };
+        let project = |v: &Vec<Vec<u8>>| -> Vec<Vec<u8>> { v.iter().map(|x| keep.iter().filter_map(|i| x.get(*i).copied()).collect()).collect() };
+        let same_len = fa.iter().chain(fb.iter()).all(|x| x.len() == fa[0].len());
+        let (fa, fb) = if same_len { (project(&fa), project(&fb)) } else { (fa, fb) };
         let d = fa[0].len() * 8;
         let half = fa.len().min(fb.len()) / 2;
         if fa.iter().chain(fb.iter()).all(|x| x.len() * 8 == d) && d + 128 <= half {
@@ -1007,7 +1018,9 @@ pub fn oracle_sampled(c: &Case, n_tapes: usize, max_nodes: usize) -> Outcome {
                     let ob2: Vec<Vec<u8>> = full.borrow_mut().drain(..).collect();
                     match (va2, vb2) {
                         (Ok(va2), Ok(vb2)) => {
-                            if alarm(&join(&va2, &oa2), &join(&vb2, &ob2)).is_none() {
+                            let (ja, jb) = (join(&va2, &oa2), join(&vb2, &ob2));
+                            let (ja, jb) = if same_len && ja.iter().chain(jb.iter()).all(|x| x.len() > *keep.last().unwrap_or(&0)) { (project(&ja), project(&jb)) } else { (ja, jb) };
+                            if ja.is_empty() || jb.is_empty() || ja[0].len() * 8 != d || alarm(&ja, &jb).is_none() {
                                 confirmed = false;
                                 break;
                             }
